@@ -45,6 +45,13 @@ Theorem C20_options_escaped : forall esc val t i,
 Proof. exact options_escaped. Qed.
 Print Assumptions C20_options_escaped.
 
+(* the flavour-specific options (RedocURL, RapiDocURL, SwaggerURL, preset, styles, favicons) are page content only: whatever
+   their values, the same requests are intercepted and answered with the page; C20_options_escaped covers their printing *)
+Theorem C20_assets_only_reach_the_page : forall f o l page hn req,
+  ui_path f (with_assets o l) = ui_path f o /\ serve_ui f (with_assets o l) page hn req = serve_ui f o page hn req.
+Proof. exact assets_only_reach_the_page. Qed.
+Print Assumptions C20_assets_only_reach_the_page.
+
 Theorem C20_identity_escaper_injects :
   exists val t, skeleton (render (fun _ s => s) val 0 t) <> skeleton (literals t).
 Proof. exact identity_escaper_injects. Qed.
@@ -57,6 +64,14 @@ Theorem C20_ui_references_served_spec : forall f a,
   api_spec_path a = clean (a_url_path a) /\ api_handler f a (a_url_path a) = ASpec.
 Proof. exact (fun f a Hr Hf => conj (api_spec_path_clean a Hr Hf) (ui_references_served_spec f a Hr Hf)). Qed.
 Print Assumptions C20_ui_references_served_spec.
+
+(* the request a browser makes for the reference has the URL path up to cleaning (dot segments resolved, percent-encoding
+   undone by the server: the run checks that on every page): it is answered with the spec *)
+Theorem C20_reference_request_served : forall f a req,
+  rooted (a_url_path a) = true -> snd (path_split (a_url_path a)) <> [] ->
+  clean req = clean (a_url_path a) -> api_handler f a req = ASpec.
+Proof. exact reference_request_served. Qed.
+Print Assumptions C20_reference_request_served.
 
 Theorem C20_default_spec_url_served : forall f a,
   a_o_spec_url a = None -> a_url_path a = [] ->
